@@ -46,7 +46,10 @@ def tasks(prop, tier, modules=None):
         if hasattr(m, "PROPS") and prop not in m.PROPS:
             continue
         for cfg in _configs(m, tier):
-            out[f"{m.ENV}@{cfg}"] = (run_env, {"module": mod, "cfg": cfg})
+            tid = f"{m.ENV}@{cfg}"
+            if tid in out:   # two contract modules of one environment with the same configuration name: keep both
+                tid = f"{m.ENV}@{cfg}#{mod}"
+            out[tid] = (run_env, {"module": mod, "cfg": cfg})
     if prop in GENPOST_PROPS and modules is None:
         # the reset obligations of these properties ASSUME the generator's post-condition: discharge it on the real generator in the same check
         out.update(genpost_tasks(prop, tier))
@@ -85,7 +88,7 @@ def _prove(ctx, *a, **kw):
 GENPOST_PROPS = ("C01", "C04", "C06", "C07", "C12")   # properties whose reset clauses (bounds, mask, feasibility, consistency, views) rest on it
 GENPOST = {  # module -> (symbolic?, extra ctx.prove options)
     "bin_pack": (False, {}), "cleaner": (False, {}), "connector": (True, {}), "flat_pack": (True, {}), "lbf": (True, {}), "maze": (False, {}),
-    "mmst": (False, {}), "robot_warehouse": (True, {}), "rubiks_cube": (True, {}), "sliding_tile": (True, {}), "sokoban": (True, {}), "sudoku": (True, {}),
+    "mmst": (False, {}), "mmst_c04": (False, {}), "robot_warehouse": (True, {}), "rubiks_cube": (True, {}), "sliding_tile": (True, {}), "sokoban": (True, {}), "sudoku": (True, {}),
 }
 
 
